@@ -18,6 +18,7 @@ EXPLANATION = (
     "mask length with the indexed dimension before reading; (R5) the output allocated by each dispatch arm has the shape the index forms determine "
     "(`:` -> that dimension of the source, index vector -> its length, mask -> its number of true entries, scalar -> 1). Out-of-range numeric indices go "
     "through nalgebra's checked indexing and `ix - 1` on usize (no clamping/unchecked access is searched for). Not decided: result kind conventions, as_index conversion."
+    ' (R6) the per-variant arms of Value::as_vecusize/as_usize keep their frozen sibling partition.'
 )
 
 FORMS = {"Scalar": "S", "Range": "R", "All": "A"}
